@@ -90,14 +90,14 @@ class Builder:
         self.api(op="reg_write", w=64, reg="RIP", val=addr)
         return self.api(op="step", guest={"t": "fetch", "kind": "fetch", "n": 1, "addr": addr, "mustrun": mustrun})
 
-    def scenario(self, obs=("bytes",), maxbytes=700, elf=None):
+    def scenario(self, obs=("bytes",), maxbytes=700, elf=None, expect_prot=()):
         code = bytes(self.code) + bytes([0x90] * 4)
         if elf is None:
             acts = [{"op": "new", "code": list(code), "start": self.code_at, "rip": self.code_at, "maxbytes": maxbytes}]
         else:
             # machine from an ELF image; the guest instructions live in a separate R+X area created through the API.
             # NOTE: the three prelude actions shift the indexes returned by api()/guest() by 3 ("loadof" is fixed up below)
-            acts = [{"op": "from_binary", "data": list(elf), "maxbytes": maxbytes},
+            acts = [{"op": "from_binary", "data": list(elf), "maxbytes": maxbytes, "expect_prot": [list(x) for x in expect_prot]},
                     {"op": "mem_init_area", "start": self.code_at, "data": list(code), "maxbytes": maxbytes},
                     {"op": "mem_prot", "start": self.code_at, "prot": 5, "maxbytes": maxbytes},
                     {"op": "reg_write", "w": 64, "reg": "RIP", "val": self.code_at, "maxbytes": maxbytes}]
@@ -156,7 +156,7 @@ def bytes_of(v):
 
 
 BLANK = {"start": 0, "new": 0, "prot": 0, "addr": 0, "n": 0, "data": [], "rv": [], "ret": 0, "toolarge": False,
-         "gk": "", "mustrun": False}
+         "gk": "", "mustrun": False, "exp": []}
 
 
 def project(scenarios, events, rep):
@@ -183,6 +183,7 @@ def project(scenarios, events, rep):
             skip = False
             if ev in ("new", "from_binary"):
                 t["ev"] = "new"
+                t["exp"] = [[mi(x[0], "segment start"), x[1]] for x in a.get("expect_prot", [])]
             elif ev in ("mem_init_area", "mem_init_zero"):
                 t["ev"] = ev
                 st = resolve(acts, evs, a["start"])
